@@ -317,3 +317,19 @@ Proof.
   - exact (get_Lc s k r Hi Hc Hs k').
   - destruct (cache_get_absent s k Hp Hc Hs) as [s' [Hg [l ->]]]. rewrite Hg. reflexivity.
 Qed.
+
+(* the purge theorems at the states fault-free histories reach *)
+Theorem purge_hist_Lc c hs tbl k :
+  Forall ff_hop hs ->
+  Lc (w_st (fst (step (reach c hs) (HPurge tbl [])))) k = Lc (w_st (reach c hs)) k.
+Proof. intro H. apply purge_step_Lc. apply reach_cinv. exact H. Qed.
+
+Theorem purge_hist_flush c hs tbl :
+  Forall ff_hop hs ->
+  let s := w_st (reach c hs) in let s' := w_st (fst (step (reach c hs) (HPurge tbl []))) in
+  cache s' = [] /\ conf s' = conf s /\ heap s' = heap s /\
+  (forall k o ob, lookup (cache s) k = Some o -> hget s o = Some ob ->
+     lookup (store s') k = Some (codec (conf s) (o_rec ob)) /\
+     L s' k = Some (codec (conf s) (o_rec ob))) /\
+  (forall k, lookup (cache s) k = None -> lookup (store s') k = lookup (store s) k).
+Proof. intro H. apply purge_step_flush. apply reach_cinv. exact H. Qed.
